@@ -1,6 +1,7 @@
 import NbioVerif.Lemmas.C07Msg
 import NbioVerif.Lemmas.C07Glue
 import NbioVerif.Lemmas.C06Chain
+import NbioVerif.Lemmas.BodyReader
 /-! C07: HTTP parsing agrees with the reference on well-formed messages (model level).
 
 The message grammar (`Msg`, `Msg.render`, `eventsOf`, `wfMsg`, `reqSpec`/`respSpec`, the two RFC 7230 decision
@@ -240,3 +241,40 @@ theorem c07_trailer_strict_counterexample :
   decide
 
 end Http
+
+/-! ### the body bytes as the handler reads them: `BodyReader` (nbhttp/body.go, `Model/HttpBody.lean`)
+
+The processor appends every body callback to the request's `BodyReader`; the handler reads through `Read`,
+`RawBodyBuffers`, `Close`. The reader is a FIFO byte queue for *every* program of appends and reads. -/
+namespace HttpBody
+
+/-- C07 (body bytes): for every interleaving of `append`s (any sizes, any allocator capacities, with or without a size
+    limit) and `Read`s (any buffer sizes) on an open reader, bytes read so far ++ bytes still held = bytes appended so
+    far; the representation invariant holds and `left` is the number of bytes held. -/
+theorem c07_body_fifo (maxBody : Nat) (ops : List Op) :
+    let s := ops.foldl (step maxBody) ({}, [], [])
+    s.2.2 ++ content s.1 = s.2.1 ∧ WF s.1 ∧ s.1.closed = false ∧ s.1.left = (content s.1).length :=
+  fifo maxBody ops {} [] [] wf_init rfl rfl
+
+/-- C07 (body bytes): one `Read` returns the next `min len(p) left` bytes; `io.EOF` iff nothing was left; it never
+    fails (the loop's fuel is enough, its divergence exit is not taken). -/
+theorem c07_body_read (br : BR) (n : Nat) (hw : WF br) (hc : br.closed = false) :
+    ∃ br' evs, read br n = some (br', (content br).take n, decide (content br = []), evs) ∧
+      WF br' ∧ content br' = (content br).drop n ∧ br'.closed = false :=
+  read_spec br n hw hc
+
+/-- C07 (body bytes): `RawBodyBuffers` is the unread bytes -/
+theorem c07_body_raw (br : BR) (hw : WF br) : (rawBuffers br).flatten = content br := rawBuffers_spec br hw
+
+/-- C07 (body bytes): `Close` is idempotent, releases each held buffer once, leaves an empty reader; `Read` after
+    `Close` is `(0, io.EOF)`. -/
+theorem c07_body_close (br : BR) (n : Nat) :
+    (close br).1.closed = true ∧ close (close br).1 = ((close br).1, []) ∧
+      read (close br).1 n = some ((close br).1, [], true, []) :=
+  ⟨(close_spec br).1, (close_spec br).2.1, read_closed _ n (close_spec br).1⟩
+
+/-- non-vacuity: two appends (the second one partly into spare capacity), three reads of sizes 2, 0, 9 -/
+example : let s := [Op.append [1, 2, 3] 2, .read 2, .append [4, 5, 6] 0, .read 0, .read 9].foldl (step 0) ({}, [], [])
+    s.2.2 = [1, 2, 3, 4, 5, 6] ∧ s.1.buffers = [] ∧ s.1.left = 0 := by decide
+
+end HttpBody
